@@ -493,8 +493,9 @@ def coreFragment (ad : Adapters) : Adapters := { ad with noInnerForm := true, no
 for the extension numbers satisfying `dom`; entering any other known extension's guard is outside. -/
 def guardsOf (dom : Nat → Bool) (ad : Adapters) : Adapters := { ad with guardDomain := dom }
 
-/-- **`Adapter.noGuards`** — the domain restriction of `C01_main_lenient`: only opcode 36 (softfork
-guards) is outside; the `((X) …)` form is inside. -/
+/-- **`Adapter.noGuards`** — the domain restriction of the former `C01_main_lenient` (now subsumed by
+`C01_main_guards_partial`, which uses `guardsOf`): only opcode 36 (softfork guards) is outside; the
+`((X) …)` form is inside. -/
 def noGuards (ad : Adapters) : Adapters := { ad with noSoftfork := true }
 
 /-- **`Adapter.restrictCalls`** — like `coreFragment` a restriction of the *domain* of a theorem, never
